@@ -156,7 +156,12 @@ def gen_general(rng, seed, family=None, faults=('loss', 'kill', 'clean_restart',
                 up = f'c{i}'
             if pubtopics[up]:
                 ins.append({'pub': up, 'form': rng.choice(['all', 'all', [(t, t) for t in pubtopics[up]], 'star' if not hid else 'all'])})
-        p.sink('sink', ins, {'proc_ms': rng.choice([[0], [0, 60], [150]])})
+        if rng.random() < 0.35 and ins:
+            # rejoin inside a filter that publishes again (receiver coupled with the sender's message-id state)
+            p.relay('j', ins, {'proc_ms': rng.choice([[0], [30]])})
+            p.sink('sink', [{'pub': 'j', 'form': 'all'}], {'proc_ms': rng.choice([[0], [0, 60], [150]])})
+        else:
+            p.sink('sink', ins, {'proc_ms': rng.choice([[0], [0, 60], [150]])})
     elif family == 'join':
         sbeh2 = rand_source_beh(rng, nframes, multi=False)
         sbeh2['topics'] = ['cam2']
